@@ -82,6 +82,7 @@ class C01(Prop):
             'Distinct by hash of (text, version, input kind).')
     assumptions = ['str.join/slicing/len of CPython are correct',
                    'bytes inputs are UTF-8 without a non-UTF-8 coding declaration (decoding correctness is C15)']
+    fuzz = True       # thorough/quick runs add an atheris sub-tier with this check as the in-target oracle
     budgets = {'quick': 24000, 'thorough': 640000}
     time_caps = {'quick': 120, 'thorough': 1500}
 
